@@ -290,8 +290,10 @@ fn c13() -> Report {
                 "simplestats" => check_stats(&r, cn, &range),
                 _ => check_opreturn(&r, cn, &range),
             };
-            if let Some((sig, detail)) = bad.into_iter().next() {
-                rep.disagree(&format!("schedule-0-differs-from-model:{}", sig), format!("{} {} {}: {}", w.coin, w.name, cb, detail), json!({"kind": "schedule", "world": {"name": w.name, "coin": w.coin, "blocks": w.blocks}, "callback": cb, "schedule": []}));
+            if let Some((sig, _detail)) = bad.into_iter().next() {
+                // C13 is a relation between executions (all schedules agree); whether the common result is right is the
+                // business of C01/C07/C08/C15/C16. Recorded, not judged.
+                rep.count(&format!("note:schedule-0-differs-from-model:{}", sig), 1);
             }
             let baseline = observe(&r, &wdir);
             // replay determinism: the same schedule twice must give identical observations
